@@ -291,19 +291,19 @@ impl SecondaryTransaction {
             iters.pop().unwrap().into()
         } else if opts.is_sorted {
             let sort_keys = find_sort_key_id(&self.table.columns);
-            if !sort_keys.is_empty() {
-                let real_col_idx = sort_keys
-                    .iter()
-                    .map(|id| {
-                        col_idx
-                            .iter()
-                            .position(|x| match x {
-                                StorageColumnRef::Idx(y) => *y as usize == *id,
-                                _ => false,
-                            })
-                            .expect("sorting key not in column list")
+            // positions of the sort keys in the scanned column list (if all of them are scanned)
+            let real_col_idx = sort_keys
+                .iter()
+                .map(|id| {
+                    col_idx.iter().position(|x| match x {
+                        StorageColumnRef::Idx(y) => *y as usize == *id,
+                        _ => false,
                     })
-                    .collect_vec();
+                })
+                .collect::<Option<Vec<_>>>();
+            if !sort_keys.is_empty()
+                && let Some(real_col_idx) = real_col_idx
+            {
                 MergeIterator::new(
                     iters.into_iter().map(|iter| iter.into()).collect_vec(),
                     real_col_idx,
